@@ -169,3 +169,87 @@ def r_auto(text, fields, obj='env', expect=None):
     if expect is not None and k != expect:
         raise SliceError(f"R-AUTO fired {k} times, expected {expect}")
     return text
+
+# ---- R-EXC: exception propagation encoded as a flag ------------------------------------------------------------
+# CBMC's C++ front end does not propagate a throw to a handler in another frame.  In L2 units a callee that may
+# raise sets `verif_thrown` (ghost) and returns; each call statement of such a callee is followed by a propagation
+# check: inside a try block control jumps to that block's handler, elsewhere the function returns (its return value
+# is never used by a propagating caller).  try/catch blocks become plain blocks plus a handler guarded by the flag.
+_EXC_LABEL = [0]
+def r_exc(text, call_patterns, default_return='false'):
+    """call_patterns: list of (regex of a full statement containing the call, replacement template using {PROP}),
+    applied everywhere; {PROP} expands to `goto verif_catch_N;` inside the N-th try block and `return <default>;` outside."""
+    out = []
+    pos = 0
+    n_try = 0
+    tries = []   # (start_of_try_kw, open_brace, close_brace_end, catch_hdr_start, catch_open, catch_close_end)
+    for m in re.finditer(r'\btry\s*\{', text):
+        ob = m.end() - 1
+        ce = _scan(text, ob)
+        mc = re.compile(r'\s*catch\s*\(([^)]*)\)\s*\{').match(text, ce)
+        if not mc:
+            raise SliceError("R-EXC: try block without a recognisable catch clause")
+        cob = mc.end() - 1
+        cce = _scan(text, cob)
+        tries.append((m.start(), ob, ce, mc.start(), cob, cce, mc.group(1)))
+    base_lbl = _EXC_LABEL[0]; _EXC_LABEL[0] += len(tries)
+    def in_try(p):
+        for k, t in enumerate(tries):
+            if t[1] < p < t[2]: return base_lbl + k + 1
+        return 0
+    # 1. rewrite calls
+    def sub_calls(seg, base):
+        res = seg
+        for pat, tmpl in call_patterns:
+            def rep(mm):
+                k = in_try(base + mm.start())
+                prop = f'goto verif_catch_{k};' if k else f'return {default_return};'
+                return mm.expand(tmpl).replace('{PROP}', prop)
+            res = re.sub(pat, rep, res)
+        return res
+    # process text piecewise so that offsets used by in_try stay those of the original text
+    pieces = []
+    cuts = sorted(set([0, len(text)] + [x for t in tries for x in (t[0], t[1] + 1, t[2] - 1, t[5])]))
+    res = ''
+    last = 0
+    for k, t in enumerate(tries):
+        n = base_lbl + k + 1
+        res += sub_calls(text[last:t[0]], last)
+        body = text[t[1] + 1:t[2] - 1]
+        res += '{ /* try */' + sub_calls(body, t[1] + 1) + f' goto verif_after_{n}; }} verif_catch_{n}: {{ verif_thrown = 0; /* catch ({t[6]}) */'
+        handler = text[t[4] + 1:t[5] - 1]
+        handler = re.sub(r'\b\w+\.what\(\)', 'verif_what()', handler)
+        res += sub_calls(handler, t[4] + 1) + f'}} verif_after_{n}: ;'
+        last = t[5]
+    res += sub_calls(text[last:], last)
+    return res, len(tries)
+
+# ---- R-NSDMI: CBMC's C++ front end ignores default member initialisers (`T m = v;` inside a class) ----------------
+def r_nsdmi(text, classname, expect=None):
+    """move the default member initialisers of class/struct `classname` into a generated default constructor"""
+    m = re.search(r'^(class|struct) ' + classname + r'\b[^{;]*\{', text, re.M)
+    if not m:
+        raise SliceError(f"R-NSDMI: class {classname} not found")
+    ob = m.end() - 1
+    ce = _scan(text, ob)
+    body = text[ob + 1:ce - 1]
+    # members at brace depth 0 of the class body
+    out = []; inits = []; depth = 0; i = 0
+    lines = body.split('\n')
+    for ln in lines:
+        stripped = re.sub(r'//.*', '', ln)
+        if depth == 0:
+            mm = re.match(r'^(\s*)((?:const\s+)?[\w:<>]+(?:\s*[\*&])?)\s+(\w+)\s*=\s*([^;{}]+);\s*$', stripped)
+            if mm and not re.match(r'\s*(static|return|typedef|using|constexpr)\b', stripped):
+                inits.append((mm.group(3), mm.group(4).strip()))
+                ln = f"{mm.group(1)}{mm.group(2)} {mm.group(3)};   // (default member initialiser moved to the generated constructor: R-NSDMI)"
+        depth += stripped.count('{') - stripped.count('}')
+        out.append(ln)
+    if expect is not None and len(inits) != expect:
+        raise SliceError(f"R-NSDMI({classname}): {len(inits)} default member initialisers, expected {expect}")
+    if not inits:
+        return text
+    if re.search(r'\b' + classname + r'\s*\(\s*\)', body):
+        raise SliceError(f"R-NSDMI({classname}): class already has a default constructor")
+    ctor = f"public: {classname}() : " + ', '.join(f"{n}({v})" for n, v in inits) + " {}   // generated by R-NSDMI\n"
+    return text[:ob + 1] + '\n'.join(out) + ctor + text[ce - 1:]
